@@ -86,6 +86,9 @@ def _case(draw):
                 if kind != 'none':
                     entries.append([nm, kind, [draw(st.integers(10, 19)) for _ in range(draw(st.integers(0, 2)))]])
             entries.append(['s', 'scalar', draw(st.integers(0, 9))])
+            # priority tags written inside the included files: they decide between the documents of the include and stay with the
+            # content that is placed under the key (unless the place itself carries a priority)
+            entries.append(['t', 'scalar', draw(st.integers(0, 9)), draw(st.sampled_from([None, None, 1, -1]))])
             files.append(entries)
         case['files'] = files
         # the including mapping may carry a priority tag (the content placed under the key takes it, like anything written there),
@@ -322,9 +325,9 @@ def run_case(case):
 
             def file_doc(entries):
                 items = []
-                for nm, kind, val in entries:
+                for nm, kind, val, *pr in entries:
                     if kind == 'scalar':
-                        items.append((nm, tdoc.sc(val)))
+                        items.append((nm, tdoc.sc(val, **({'prio': pr[0], 'mdstyle': 'short'} if pr and pr[0] else {}))))
                     else:
                         n = tdoc.sq([tdoc.sc(v) for v in val], flow=True)
                         if kind in ('extend', 'append'):
@@ -344,26 +347,39 @@ def run_case(case):
             body = f'---\nw: {wtag}\n  {key}: !include {inc}\n' if wrap else f'---\n{key}: !include {inc}\n'
             master = os.path.join(lay.tree, 'master.yaml')
             lay.write(master, body)
-            post_texts = [tdoc.render(tdoc.from_plain({'w': {key: {'s': 99, 'lst': [99]}}} if wrap else {key: {'s': 99, 'lst': [99]}}))] if post else []
+            post_texts = [tdoc.render(tdoc.from_plain({'w': {key: {'s': 99, 't': 98, 'lst': [99]}}} if wrap else {key: {'s': 99, 't': 98, 'lst': [99]}}))] if post else []
+            def merged_files():
+                from awesomeyaml.builder import Builder
+                b_ = Builder()
+                for t_ in ftexts:
+                    b_.add_source(t_, raw_yaml=True)
+                return b_.build()
             inner_st, inner = _build_in(lay.cwd, lambda: Config.build(*ftexts, raw_yaml=True))
+            tree_st, inner_tree = _build_in(lay.cwd, merged_files)
             layout_txt = f'\nearlier stage:\n{pre_text}\nmaster file:\n{body}\nincluded files:\n' + '\n'.join(ftexts) + ('\nlater stage:\n' + post_texts[0] if post else '')
             status, got = _build_in(lay.cwd, lambda: Config.build(pre_text, master, *post_texts, raw_yaml=[True, False] + [True] * len(post_texts)))
             if wrap:
                 labels.add('include-below-a-priority-tag')
             if inner_st == 'ok':
-                pl = tdoc.from_plain({key: O.to_builtin(inner)})
+                # "the merged content of the files": the merged node tree, written out by the library's own dump (C18), indented under the key
+                import awesomeyaml.yaml as ayyaml
+                dumped = ayyaml.dump(inner_tree).rstrip('\n').split('\n')
+                head = ''
+                if dumped and dumped[0].startswith('!'):
+                    head, dumped = ' ' + dumped[0], dumped[1:]
                 if wrap:
-                    pl = tdoc.mp([('w', tdoc.mp(pl['items'], prio=wrap, mdstyle='short'))])
-                placed = tdoc.render(pl)
+                    placed = f'---\nw: {wtag}\n  {key}:{head}\n' + '\n'.join('    ' + ln for ln in dumped) + '\n'
+                else:
+                    placed = f'---\n{key}:{head}\n' + '\n'.join('  ' + ln for ln in dumped) + '\n'
                 want_st, want = _build_in(lay.cwd, lambda: Config.build(pre_text, placed, *post_texts, raw_yaml=True))
                 if want_st == 'ok':
                     if status != 'ok' or O.canon(O.to_builtin(got)) != O.canon(O.to_builtin(want)):
                         raise Violation(f'C06: {key}: !include .. gives {got!r}; placing the merged content of the files under the key gives '
-                                        f'{O.to_builtin(want)!r}{layout_txt}')
+                                        f'{O.to_builtin(want)!r}{layout_txt}\ncontent written out:\n{placed}')
             elif status == 'ok':
                 raise Violation(f'C06: the included files do not build on their own ({type(inner).__name__}) but the including document does: {got!r}{layout_txt}')
             labels.add('files=%d' % len(ftexts))
-            nontrivial = any(k in ('extend', 'append') for e in case['files'] for _, k, _ in e) and bool(case['pre'])
+            nontrivial = any(en[1] in ('extend', 'append') for e in case['files'] for en in e) and bool(case['pre'])
         elif mode == 'keyinc':
             key, d = case['key'], case['dir']
             names = []
